@@ -297,6 +297,12 @@ def rule_nodetype(ctx, rep, prop_rule="R-NODETYPE"):
                 bad = []
                 for v in vals:
                     good = (isinstance(v, ast.Call) and last_attr(v.func) in COMPOPS) or (isinstance(v, ast.Attribute) and v.attr == "operator")
+                    if not good and isinstance(v, ast.Call) and isinstance(v.func, ast.Name):
+                        # `inverse = TABLE.get(type(op)); ... inverse()`: a class taken from a table whose values are all operators
+                        from .c08 import class_table
+
+                        t = class_table(ctx, fn, v.func)
+                        good = bool(t) and set(t.values()) <= COMPOPS
                     if not good:
                         bad.append(v)
                 rep.check(prop_rule, fn.qname, fn.loc(c), not bad, "operator-slot",
